@@ -9,7 +9,7 @@
    sampled matrix F(s,i) = F[get_1d_index(s,i,n)]; [ts_rates_Q0], [purity_s_Q] are the executable rational instances. *)
 From Coq Require Import Reals QArith Lra List.
 From SpdVerif Require Import Model.FinSum Model.Hom Model.Hom2 Proofs.FinSum_lemmas Proofs.Cx_lemmas Proofs.CMat Proofs.C10_sums
-  Proofs.C10_svd Proofs.C10_expand Proofs.C10_identical Proofs.C10_setup Proofs.C10_exec Gen.HomSrc Proofs.C10_src.
+  Proofs.C10_svd Proofs.C10_expand Proofs.C10_identical Proofs.C10_setup Proofs.C10_exec Proofs.C10_sharp Gen.HomSrc Proofs.C10_src.
 Local Open Scope R_scope.
 
 (* identical sources (six main grids = one array F), unit phases (zero delay):
@@ -56,6 +56,19 @@ Theorem C10_range_general : forall n A u_ss u_ii u_si,
   (jsi_norm ROps (n * n) (first_s1_i2 A) * jsi_norm ROps (n * n) (second_s2_i1 A) <= N12 -> 0 <= ts_rate_ii ROps n A u_ii <= 1) /\
   (jsi_norm ROps (n * n) (first_i2_i1 A) * jsi_norm ROps (n * n) (second_s2_s1 A) <= N12 -> 0 <= ts_rate_si ROps n A u_si <= 1).
 Proof. exact ts_rates_range. Qed.
+
+(* the sharp bound for arbitrary grids: rate_xx <= 1/4 (1 + sqrt(B_xx / (N1 N2)))^2 (written without the inner division),
+   B_xx the product of the norms of the two cross grids of that channel; equals 1 when B_xx = N1 N2.  On the witness of
+   Findings/C10_si_range.v this bound is 1.54, the observed rate 1.29. *)
+Theorem C10_si_partial : forall n A u_ss u_ii u_si,
+  unit_phases u_ss -> unit_phases u_ii -> unit_phases u_si ->
+  0 < jsi_norm ROps (n * n) (first_s1_i1 A) -> 0 < jsi_norm ROps (n * n) (second_s2_i2 A) ->
+  let N12 := jsi_norm ROps (n * n) (first_s1_i1 A) * jsi_norm ROps (n * n) (second_s2_i2 A) in
+  let bound B := (sqrt N12 + sqrt B) * (sqrt N12 + sqrt B) / (4 * N12) in
+  ts_rate_ss ROps n A u_ss <= bound (jsi_norm ROps (n * n) (first_s2_i1 A) * jsi_norm ROps (n * n) (second_s1_i2 A)) /\
+  ts_rate_ii ROps n A u_ii <= bound (jsi_norm ROps (n * n) (first_s1_i2 A) * jsi_norm ROps (n * n) (second_s2_i1 A)) /\
+  ts_rate_si ROps n A u_si <= bound (jsi_norm ROps (n * n) (first_i2_i1 A) * jsi_norm ROps (n * n) (second_s2_s1 A)).
+Proof. exact ts_rates_sharp. Qed.
 
 (* a setup against itself (SPDC::hom_two_source_rate_series), every delay: ss and ii always in [0,1]; si in [0,1] when the two
    auxiliary grids f(wi2, wi1), f(ws2, ws1) are not larger in norm than the main grid.
@@ -132,6 +145,7 @@ Print Assumptions C10_singular_values.
 Print Assumptions C10_power_sums.
 Print Assumptions C10_setup_visibilities.
 Print Assumptions C10_range_general.
+Print Assumptions C10_si_partial.
 Print Assumptions C10_range_partial.
 Print Assumptions C10_range_same_axes.
 Print Assumptions C10_source_is_model.
